@@ -22,7 +22,7 @@ func (C03) Runs(t core.Tier) int {
 	if t == core.Thorough {
 		return 1_200_000
 	}
-	return 40_000
+	return 50_000
 }
 func (C03) Rule() string {
 	return "One run = one session that defines side-effect-free functions (free-form bodies with loops over generators, closures made, called and returned, generator closures from factories, bounded recursion) and then evaluates the SAME probe call in up to 10 placements: at top level, twice in one statement, under d wrapper frames (d around 0..7, 63/64, 127/128, 300) each with w padding locals (w around 0,1,127..130,255..257,300), inside a loop body at iteration j, as a yielded value, inside a generator consumed by a loop, and after history statements (deep recursion, wide calls, loops, failed statements, injected aborts). Globals are only added under fresh names. Oracle (real vs real): every rendering of the probe equals the first one. Non-trivial = at least two placements executed at different call depth or after the value stack was relocated / a context recycled. Distinct = hash of function shapes, probe, placements and padding."
